@@ -802,7 +802,11 @@ impl Indexable for ast::Value {
         match self.inner_values().count() {
             0 => None,
             1 => first_value_typ,
-            _ => Some(Type::String),
+            // `[1] # [2, 3]` pastes lists, everything else strings
+            _ => match first_value_typ {
+                Some(typ @ Type::List(_)) => Some(typ),
+                _ => Some(Type::String),
+            },
         }
     }
 }
